@@ -1022,6 +1022,29 @@ func (in *Interp) symbolicLib(name string, fn *ssa.Function, args []Value, site 
 			}
 			return Int{uint64(len(ba))}, true
 		}
+	case "unicode/utf8.DecodeRuneInString", "unicode/utf8.DecodeRune":
+		var bs []*Term
+		if name == "unicode/utf8.DecodeRune" {
+			bs = bytesOfArg(in, args[0])
+		} else {
+			a := strArgVal(in, args[0])
+			b2, ok := strBytes(a)
+			if !ok {
+				return nil, false
+			}
+			bs = b2
+		}
+		if len(bs) == 0 {
+			return Tuple{Int{0xFFFD}, Int{0}}, true
+		}
+		if bs[0].isConst() {
+			if bs[0].c < 0x80 {
+				return Tuple{Int{bs[0].c}, Int{1}}, true
+			}
+			return nil, false
+		}
+		in.requireASCII(bs[0])
+		return Tuple{symInt(mkZExt(bs[0], 32), true), Int{1}}, true
 	case "unicode/utf8.ValidString":
 		a := strArgVal(in, args[0])
 		if ba, ok := strBytes(a); ok {
@@ -1078,6 +1101,31 @@ func init() {
 	})
 	reg("strings.Clone", func(in *Interp, fn *ssa.Function, a []Value, c *frame, s ssa.Instruction) (Value, bool) {
 		return a[0], true
+	})
+	reg("(golang.org/x/text/unicode/norm.Form).String", func(in *Interp, fn *ssa.Function, a []Value, c *frame, s ssa.Instruction) (Value, bool) {
+		// Unicode normalisation is the identity on ASCII (Unicode standard, UAX #15); non-ASCII input is outside the model
+		str := strArgVal(in, a[1])
+		if cs, ok := str.(string); ok {
+			for i := 0; i < len(cs); i++ {
+				if cs[i] >= 0x80 {
+					unsup("norm.Form.String on non-ASCII text")
+				}
+			}
+			return cs, true
+		}
+		bs, ok := strBytes(str)
+		if !ok {
+			// integer-format atoms are ASCII digits
+			return str, true
+		}
+		for _, b := range bs {
+			if !b.isConst() {
+				in.requireASCII(b)
+			} else if b.c >= 0x80 {
+				unsup("norm.Form.String on non-ASCII text")
+			}
+		}
+		return str, true
 	})
 	reg("internal/abi.NoEscape", func(in *Interp, fn *ssa.Function, a []Value, c *frame, s ssa.Instruction) (Value, bool) {
 		return a[0], true
